@@ -28,6 +28,7 @@ theorem applyW_grows {op : WOp} (hu : op.unbounded) (r : Regs) (log : Log) :
     · rename_i l' hj; exact join_grows hu hj x hx
     · exact hx
   | setIdentity cid => simpa [applyW, setIdentity] using hx
+  | refuse => exact hx
 
 theorem applyW_nodupH (op : WOp) (r : Regs) {log : Log} (hn : NodupH log.entries) :
     NodupH (applyW op r log).1.entries := by
@@ -40,6 +41,7 @@ theorem applyW_nodupH (op : WOp) (r : Regs) {log : Log} (hn : NodupH log.entries
     · rename_i l' hj; exact join_nodupH hn hj
     · exact hn
   | setIdentity cid => simpa [applyW, setIdentity] using hn
+  | refuse => exact hn
 
 /-- the registers a critical section leaves alone -/
 theorem applyW_regs (op : WOp) (r : Regs) (log : Log) :
@@ -50,6 +52,7 @@ theorem applyW_regs (op : WOp) (r : Regs) (log : Log) :
   | append pc h tag => simp [applyW]
   | join oid size => simp only [applyW]; split <;> simp
   | setIdentity cid => simp [applyW]
+  | refuse => simp [applyW]
 
 /-! ## Replay -/
 
